@@ -748,6 +748,145 @@ def rule_nurimisaki(h: int, w: int, problem: List[List[int]]) -> Callable[[Seque
     return ok
 
 
+def rule_castle_wall(h: int, w: int, arrow: List[List[str]], inside: List[List[Optional[bool]]]) -> Callable[[Sequence[bool]], bool]:
+    """cells are lattice points; a clue cell is off the loop; its arrow counts the loop segments from the cell to the board edge in
+    that direction; inside[y][x] True / False places the clue cell inside / outside the loop"""
+    edges = frame_edges(h - 1, w - 1)
+
+    def ok(pat: Sequence[bool]) -> bool:
+        if not single_loop_or_empty(edges, pat):
+            return False
+        on = {e for e, b in zip(edges, pat) if b}
+        used = {c for e in on for c in e}
+
+        def has(a: Cell, b: Cell) -> bool:
+            return (a, b) in on or (b, a) in on
+
+        # faces (unit squares between four points): flood fill from outside across edges that are not on the loop
+        faces = {(y, x) for y in range(h - 1) for x in range(w - 1)}
+        outside: Set[Cell] = set()
+        st: List[Cell] = []
+        for (y, x) in faces:
+            border_open = ((y == 0 and not has((0, x), (0, x + 1))) or (y == h - 2 and not has((h - 1, x), (h - 1, x + 1)))
+                           or (x == 0 and not has((y, 0), (y + 1, 0))) or (x == w - 2 and not has((y, w - 1), (y + 1, w - 1))))
+            if border_open:
+                outside.add((y, x))
+                st.append((y, x))
+        while st:
+            y, x = st.pop()
+            for (ny, nx), a, b in (((y - 1, x), (y, x), (y, x + 1)), ((y + 1, x), (y + 1, x), (y + 1, x + 1)),
+                                   ((y, x - 1), (y, x), (y + 1, x)), ((y, x + 1), (y, x + 1), (y + 1, x + 1))):
+                if (ny, nx) in faces and (ny, nx) not in outside and not has(a, b):
+                    outside.add((ny, nx))
+                    st.append((ny, nx))
+        for c in cells(h, w):
+            a_ = arrow[c[0]][c[1]]
+            if a_ != "..":
+                if c in used:
+                    return False
+                d = a_[0]
+                y, x = c
+                line = {"^": [((yy, x), (yy + 1, x)) for yy in range(0, y)], "v": [((yy, x), (yy + 1, x)) for yy in range(y, h - 1)],
+                        "<": [((y, xx), (y, xx + 1)) for xx in range(0, x)], ">": [((y, xx), (y, xx + 1)) for xx in range(x, w - 1)]}.get(d)
+                if line is not None and sum(1 for e in line if has(*e)) != int(a_[1:]):
+                    return False
+            io = inside[c[0]][c[1]]
+            if io is not None:
+                around = [(yy, xx) for yy in (c[0] - 1, c[0]) for xx in (c[1] - 1, c[1]) if (yy, xx) in faces]
+                if c in used or not around:
+                    return False if io is not None and c in used else (io is False)
+                ins = [f not in outside for f in around]
+                if any(v != ins[0] for v in ins):
+                    return False
+                if ins[0] != io:
+                    return False
+        return True
+
+    return ok
+
+
+# quarter triangles of a cell: N, E, S, W (apex at the cell centre); a triangle of type k blackens two of them
+_SHAKA_BLACK = {0: set(), 1: {"N", "W"}, 2: {"W", "S"}, 3: {"S", "E"}, 4: {"N", "E"}}
+
+
+def rule_shakashaka(h: int, w: int, problem: List[List[Optional[int]]]) -> Callable[[Sequence[int]], bool]:
+    """answer per cell: 0 empty, 1..4 a triangle whose black half is the top-left, bottom-left, bottom-right, top-right corner;
+    black cells (problem not None) stay empty and may carry the number of edge-adjacent triangles; every white region must be
+    a rectangle (upright or at 45 degrees)"""
+
+    def ok(pat: Sequence[int]) -> bool:
+        val = {(y, x): pat[y * w + x] for y in range(h) for x in range(w)}
+        white: Set[Tuple[int, int, str]] = set()
+        for c in cells(h, w):
+            pv = problem[c[0]][c[1]]
+            if pv is not None:
+                if val[c] != 0:
+                    return False
+                if pv >= 0 and sum(1 for d in nb4(h, w, c) if val[d] != 0) != pv:
+                    return False
+                continue
+            for q in "NESW":
+                if q not in _SHAKA_BLACK[val[c]]:
+                    white.add((c[0], c[1], q))
+        # connectivity of white quarter triangles
+        def nbrs(t: Tuple[int, int, str]):
+            y, x, q = t
+            ring = "NESW"
+            i = ring.index(q)
+            yield (y, x, ring[(i + 1) % 4])
+            yield (y, x, ring[(i - 1) % 4])
+            dy, dx, opp = {"N": (-1, 0, "S"), "S": (1, 0, "N"), "W": (0, -1, "E"), "E": (0, 1, "W")}[q]
+            yield (y + dy, x + dx, opp)
+
+        # geometry in quarter units: cell (y, x) spans [2y, 2y+2] x [2x, 2x+2], centre (2y+1, 2x+1)
+        def tri(t: Tuple[int, int, str]) -> List[Tuple[int, int]]:
+            y, x, q = t
+            cy, cx = 2 * y + 1, 2 * x + 1
+            tl, tr, bl, br = (2 * y, 2 * x), (2 * y, 2 * x + 2), (2 * y + 2, 2 * x), (2 * y + 2, 2 * x + 2)
+            return {"N": [tl, tr, (cy, cx)], "E": [tr, br, (cy, cx)], "S": [br, bl, (cy, cx)], "W": [bl, tl, (cy, cx)]}[q]
+
+        left = set(white)
+        while left:
+            start = left.pop()
+            comp = {start}
+            st = [start]
+            while st:
+                t = st.pop()
+                for u in nbrs(t):
+                    if u in left:
+                        left.discard(u)
+                        comp.add(u)
+                        st.append(u)
+            pts = sorted({p_ for t in comp for p_ in tri(t)})
+            # convex hull (monotone chain) of all corner points
+            def cross(o: Tuple[int, int], a: Tuple[int, int], b: Tuple[int, int]) -> int:
+                return (a[0] - o[0]) * (b[1] - o[1]) - (a[1] - o[1]) * (b[0] - o[0])
+
+            lower: List[Tuple[int, int]] = []
+            for p_ in pts:
+                while len(lower) >= 2 and cross(lower[-2], lower[-1], p_) <= 0:
+                    lower.pop()
+                lower.append(p_)
+            upper: List[Tuple[int, int]] = []
+            for p_ in reversed(pts):
+                while len(upper) >= 2 and cross(upper[-2], upper[-1], p_) <= 0:
+                    upper.pop()
+                upper.append(p_)
+            hull = lower[:-1] + upper[:-1]
+            if len(hull) != 4:
+                return False
+            area2 = abs(sum(hull[i][0] * hull[(i + 1) % 4][1] - hull[(i + 1) % 4][0] * hull[i][1] for i in range(4)))
+            if area2 != 2 * len(comp):  # each quarter triangle has area 1 in these units (twice the area = 2)
+                return False
+            for i in range(4):
+                a_, b_, c_ = hull[i], hull[(i + 1) % 4], hull[(i + 2) % 4]
+                if (b_[0] - a_[0]) * (c_[0] - b_[0]) + (b_[1] - a_[1]) * (c_[1] - b_[1]) != 0:
+                    return False
+        return True
+
+    return ok
+
+
 def decide_sudoku(a: tuple, kw: dict, ids: List[int], posted: "_Posted", ext: Extender, label: str) -> Tuple[str, str, int]:
     """the answer space (size^(size^2)) cannot be enumerated; instead
     (sound) every posted constraint is a consequence of the rules: an all-different over cells of one row, column or block, or a
@@ -964,6 +1103,17 @@ def instances(tier: str) -> List[Tuple[str, tuple, dict, Callable[..., Callable[
           ("nurimisaki", (3, 4, [[-1, -1, -1, -1], [-1, -1, -1, -1], [3, -1, -1, -1]]), {}, rule_nurimisaki),
           # a cape whose line runs down to a black cell in the bottom row (needs three rows and room beside it)
           ("nurimisaki", (3, 5, [[2, -1, -1, -1, -1], [-1, -1, -1, -1, -1], [-1, -1, -1, -1, -1]]), {}, rule_nurimisaki)]
+    # castle wall (cells are lattice points)
+    I += [("castle_wall", (3, 3, [["..", "..", ".."], ["..", ">1", ".."], ["..", "..", ".."]], [[None] * 3, [None, True, None], [None] * 3]), {}, rule_castle_wall),
+          ("castle_wall", (3, 3, [["v1", "..", ".."], ["..", "..", ".."], ["..", "..", ".."]], [[False, None, None], [None] * 3, [None] * 3]), {}, rule_castle_wall),
+          ("castle_wall", (3, 3, [["..", "..", ".."], ["..", "..", ".."], ["..", "..", "<2"]], [[None] * 3, [None] * 3, [None, None, None]]), {}, rule_castle_wall),
+          ("castle_wall", (2, 4, [["..", "..", "..", ".."], ["^0", "..", "..", ".."]], [[None] * 4, [False, None, None, None]]), {}, rule_castle_wall)]
+    # shakashaka (integer answers 0..4)
+    I += [("shakashaka", (2, 2, [[None, None], [None, None]]), {}, rule_shakashaka),
+          ("shakashaka", (2, 3, [[None, None, None], [None, None, -1]]), {}, rule_shakashaka),
+          ("shakashaka", (2, 2, [[None, 1], [None, None]]), {}, rule_shakashaka)]
+    if deep:
+        I += [("shakashaka", (2, 3, [[None, None, None], [None, None, None]]), {}, rule_shakashaka), ("shakashaka", (3, 2, [[None, None], [2, None], [None, None]]), {}, rule_shakashaka)]
     # sudoku: decided through constraint-wise soundness and pairwise refutation (all boards of that order)
     I += [("sudoku", ([[1, 0, 0, 2], [0, 0, 0, 0], [0, 0, 0, 0], [3, 0, 0, 4]],), {"n": 2}, decide_sudoku),
           ("sudoku", ([[0] * 9 for _ in range(8)] + [[0, 0, 0, 0, 0, 0, 0, 0, 7]],), {"n": 3}, decide_sudoku)]
